@@ -877,6 +877,15 @@ func c10Cases(tier string) []c10Case {
 			c.Seqs, c.Alpha, c.Seed, c.Mode = seqs, nt, seed, "seed"
 			cs = append(cs, c)
 		}
+		// 4x4: two or more rogue taxa / recombining pairs, so that reported name lists have an order
+		seqs4 := c10Coded(4, 4, nt)
+		for _, c := range []c10Case{
+			{Op: "shufflesites", F1: 0.5, F2: 0.5}, {Op: "shufflesites", F1: 0.5, F2: 1, B: true}, {Op: "rogue", F1: 0.5, F2: 0.5}, {Op: "rogue", F1: 1, F2: 1},
+			{Op: "swap", F1: 1, F2: 0.5}, {Op: "recombine", F1: 1, F2: 0.5}, {Op: "sample", N: 3}, {Op: "rarefy", N: 4, Counts: []int{2, 1, 3, 2}},
+		} {
+			c.Seqs, c.Alpha, c.Seed, c.Mode = seqs4, nt, seed, "seed"
+			cs = append(cs, c)
+		}
 	}
 	return cs
 }
@@ -886,7 +895,7 @@ func init() {
 		ID:    "C10",
 		Level: "model_checking",
 		Rule: "for each randomised operation (ShuffleSequences, ShuffleSites, Swap, SimulateRogue, BuildBootstrap, Sample, SampleSeqBag, RandSubAlign, Recombine, AddGaps, Mutate, Rarefy) on position-coded alignments of every shape n<=3 x L<=3 (4x4 for the support-checked operations in thorough) and on all alignments n<=2,L<=2 over {A,C,-} for the content-sensitive ones, with all listed parameter values: EVERY sequence of RNG answers (rand.Intn: all n values; rand.Perm: all n! orders; rand.Float64: representatives on both sides of and at every threshold the code compares with) is executed; states/transitions are nodes/edges of the RNG choice trees; " +
-			"per leaf the operation's invariant, per tree reached-outcome set == admissible set where the statement pins the support down (row shuffle, bootstrap, sampling, site sampling, full site shuffle); seed replay with the real stream for seeds 0,1,42 twice and under map-order choices. distinct_nontrivial = distinct (case, answer sequence) leaves whose invariant was checked.",
+			"per leaf the operation's invariant, per tree reached-outcome set == admissible set where the statement pins the support down (row shuffle, bootstrap, sampling, site sampling, full site shuffle); seed replay with the real stream for seeds 0,1,42 twice and under map-order choices, on 3x3 and (for operations reporting name lists or pairing rows) 4x4 alignments. distinct_nontrivial = distinct (case, answer sequence) leaves whose invariant was checked.",
 		Assumptions: []string{
 			"rand.Intn(n) can return every value of [0,n) and rand.Perm every permutation (positive probability is decided as reachability over RNG answers)",
 			"rand.Float64 answers are representatives: below, at and above each comparison threshold of the operation",
